@@ -251,7 +251,11 @@ def graph6_constants(facts):
             return isinstance(x, tuple) and x[0] == "const" and "::N" in str(x[1])
 
         def cval(x):
-            return int(x[1]) if isinstance(x, tuple) and x[0] == "const" and str(x[1]).isdigit() else None
+            if isinstance(x, tuple) and x[0] == "const":
+                if str(x[1]).isdigit():
+                    return int(x[1])
+                return c.get(str(x[1]))            # a named constant of the crate (const MAX_ORDER: usize = 258047)
+            return None
         # the same split written with either polarity / operand order: order < N | N <= order ; order <= 258047 | 258047 < order | ..
         short = any(isinstance(a, tuple) and a[0] == "bin" and ((a[1] == "Lt" and a[2] == ("arg", 1) and is_n(a[3])) or (a[1] == "Le" and is_n(a[2]) and a[3] == ("arg", 1)))
                     for a in atoms)
